@@ -4,6 +4,10 @@ cd "$(dirname "$(readlink -f "$0")")/.."
 pat="${1:-*}"
 for f in mutants/$pat.diff; do
   id=$(basename "$f" | cut -d_ -f1 | tr a-z A-Z)
+  case "$id" in
+    OK) continue;;                                             # negative controls: tools/run_controls.sh
+    SAN) id=$(basename "$f" | cut -d_ -f2 | tr a-z A-Z);;      # san_cNN_*: caught by the sanitizer pass / process supervision of check CNN
+  esac
   MUT_LINES=1 tools/mutant.sh "$f" "$id" "${2:-quick}" | cut -c1-230
 done
 rm -rf /tmp/fmut_target
